@@ -4,7 +4,7 @@ import os
 import re
 import vlib
 
-PROPS = ['Rangers.Props.C08']
+PROPS = ['Rangers.Props.C08', 'Rangers.Props.C08Stream']
 DRIVERS = ['C08']
 META = dict(
     level='proof',
